@@ -6,6 +6,7 @@ import fcntl, glob, hashlib, os, shutil, subprocess, sys, time
 VERIF = os.path.dirname(os.path.dirname(os.path.abspath(__file__)))
 REPO = os.environ.get("IPA_REPO", "/repo")
 CACHE = os.path.join(VERIF, ".cache")
+SLOTS = 3
 DRIVER = os.path.join(VERIF, "driver", "target", "release", "ipa-facts")
 
 CONFIGS = {
@@ -71,14 +72,31 @@ def ensure_facts(cfg="Q", repo=REPO, quiet=False):
     out = os.path.join(CACHE, "facts", f"{th}-{cfg}.jsonl")
     if os.path.exists(out):
         return out, th, 0.0
-    lock = open(os.path.join(CACHE, f"lock-{cfg}"), "w")
-    fcntl.flock(lock, fcntl.LOCK_EX)
+    # a configuration has up to SLOTS build directories, so that several processes (the parallel self-test) can extract
+    # at the same time; slot k > 0 starts as a copy of slot 0's dependency build instead of compiling it again
+    lock = None
+    slot = 0
+    for k in range(SLOTS):
+        cand = open(os.path.join(CACHE, f"lock-{cfg}" + (f".{k}" if k else "")), "w")
+        try:
+            fcntl.flock(cand, fcntl.LOCK_EX | fcntl.LOCK_NB)
+            lock, slot = cand, k
+            break
+        except OSError:
+            cand.close()
+    if lock is None:
+        lock = open(os.path.join(CACHE, f"lock-{cfg}"), "w")
+        fcntl.flock(lock, fcntl.LOCK_EX)
+        slot = 0
     try:
         if os.path.exists(out):
             return out, th, 0.0
         t0 = time.time()
         args, min_bodies = CONFIGS[cfg]
-        target = os.path.join(CACHE, "target", cfg)
+        target = os.path.join(CACHE, "target", cfg + (f".{slot}" if slot else ""))
+        base = os.path.join(CACHE, "target", cfg)
+        if slot and not os.path.isdir(target) and os.path.isdir(os.path.join(base, "debug", "deps")):
+            subprocess.run(["cp", "-a", "--reflink=auto", base, target], check=False)
         tmp_out = os.path.join(CACHE, "out", f"{cfg}-{os.getpid()}")
         shutil.rmtree(tmp_out, ignore_errors=True)
         os.makedirs(tmp_out)
